@@ -9,7 +9,7 @@ variable {α : Type} [LT α] [LE α] [DecidableLT α] [DecidableLE α]
 /-- check_bounds, one coordinate -/
 def checkBounds1 (x lo hi : α) : Bool := (!((decide (x > lo)) && (decide (x < hi))))
 /-- active_bounds, one coordinate: (first returned mask, second returned mask) -/
-def activeBounds1 (x lo hi : α) : Bool × Bool := TopSearch.Moves.activeBounds1 x lo hi
+def activeBounds1 (x lo hi : α) : Bool × Bool := ((decide (x ≤ lo)), (decide (x ≥ hi)))
 /-- move_to_bounds, one coordinate -/
 def clip1 (x lo hi : α) : α := npClip x lo hi
 /-- at_bounds / all_bounds over the mask of check_bounds -/
